@@ -17,6 +17,11 @@ type Term struct {
 	args []*Term
 	isB  bool
 	str  string
+
+	// interval of an Int term (valid when iv): lo <= value <= hi. For variables it
+	// is tightened in place by vnAssume; compound terms derive theirs when built.
+	iv     bool
+	lo, hi int64
 }
 
 func (t *Term) String() string {
@@ -64,9 +69,75 @@ func (t *Term) String() string {
 	return t.str
 }
 
-func tInt(v int64) *Term   { return &Term{op: "int", ival: v} }
+func tInt(v int64) *Term   { return &Term{op: "int", ival: v, iv: true, lo: v, hi: v} }
 func tBool(b bool) *Term   { return &Term{op: "bool", bval: b, isB: true} }
 func tVarI(n string) *Term { return &Term{op: "var", name: n} }
+
+func addOv(a, b int64) (int64, bool) {
+	c := a + b
+	if (c > a) == (b > 0) {
+		return c, true
+	}
+	return 0, false
+}
+
+func subOv(a, b int64) (int64, bool) {
+	c := a - b
+	if (c < a) == (b > 0) {
+		return c, true
+	}
+	return 0, false
+}
+
+// tAdd / tSub build a+b / a-b over the mathematical integers with intervals.
+func tAdd(a, b *Term) *Term {
+	t := mk("+", false, a, b)
+	if a.iv && b.iv {
+		lo, ok1 := addOv(a.lo, b.lo)
+		hi, ok2 := addOv(a.hi, b.hi)
+		if ok1 && ok2 {
+			t.iv, t.lo, t.hi = true, lo, hi
+		}
+	}
+	return t
+}
+
+func tSub(a, b *Term) *Term {
+	t := mk("-", false, a, b)
+	if a.iv && b.iv {
+		lo, ok1 := subOv(a.lo, b.hi)
+		hi, ok2 := subOv(a.hi, b.lo)
+		if ok1 && ok2 {
+			t.iv, t.lo, t.hi = true, lo, hi
+		}
+	}
+	return t
+}
+
+func (r intRange) bounds() (int64, int64, bool) {
+	if r.signed {
+		if r.bits == 64 {
+			return -1 << 63, 1<<63 - 1, true
+		}
+		return -(int64(1) << (r.bits - 1)), int64(1)<<(r.bits-1) - 1, true
+	}
+	if r.bits == 64 {
+		return 0, 0, false
+	}
+	return 0, int64(1)<<r.bits - 1, true
+}
+
+func (t *Term) within(r intRange) bool {
+	lo, hi, ok := r.bounds()
+	return ok && t.iv && t.lo >= lo && t.hi <= hi
+}
+
+func (t *Term) setRange(r intRange) *Term {
+	if lo, hi, ok := r.bounds(); ok {
+		t.iv, t.lo, t.hi = true, lo, hi
+	}
+	return t
+}
 func tVarB(n string) *Term { return &Term{op: "var", name: n, isB: true} }
 func tLit(s string) *Term  { return &Term{op: "lit", name: s} }
 
@@ -138,7 +209,18 @@ func tIte(c, a, b *Term) *Term {
 		}
 		return tNot(c)
 	}
-	return mk("ite", a.isB, c, a, b)
+	t := mk("ite", a.isB, c, a, b)
+	if !a.isB && a.iv && b.iv {
+		t.iv = true
+		t.lo, t.hi = a.lo, a.hi
+		if b.lo < t.lo {
+			t.lo = b.lo
+		}
+		if b.hi > t.hi {
+			t.hi = b.hi
+		}
+	}
+	return t
 }
 
 func tEq(a, b *Term) *Term {
@@ -163,6 +245,9 @@ func tEq(a, b *Term) *Term {
 		}
 		return tNot(b)
 	}
+	if !a.isB && a.iv && b.iv && (a.hi < b.lo || b.hi < a.lo) {
+		return tBool(false)
+	}
 	return mk("=", true, a, b)
 }
 
@@ -178,6 +263,38 @@ func tCmp(op string, a, b *Term) *Term {
 			return tBool(a.ival > b.ival)
 		case ">=":
 			return tBool(a.ival >= b.ival)
+		}
+	}
+	if a.iv && b.iv {
+		switch op {
+		case "<":
+			if a.hi < b.lo {
+				return tBool(true)
+			}
+			if a.lo >= b.hi {
+				return tBool(false)
+			}
+		case "<=":
+			if a.hi <= b.lo {
+				return tBool(true)
+			}
+			if a.lo > b.hi {
+				return tBool(false)
+			}
+		case ">":
+			if a.lo > b.hi {
+				return tBool(true)
+			}
+			if a.hi <= b.lo {
+				return tBool(false)
+			}
+		case ">=":
+			if a.lo >= b.hi {
+				return tBool(true)
+			}
+			if a.hi < b.lo {
+				return tBool(false)
+			}
 		}
 	}
 	return mk(op, true, a, b)
@@ -222,6 +339,13 @@ func (r intRange) modLit() *Term {
 // wrapOnce normalises the result of ONE addition/subtraction/negation of
 // in-range operands back into the range (a single correction suffices).
 func wrapOnce(t *Term, r intRange) *Term {
+	if t.within(r) {
+		return t
+	}
+	return wrapOnceRaw(t, r).setRange(r)
+}
+
+func wrapOnceRaw(t *Term, r intRange) *Term {
 	return tIte(mk(">", true, t, r.maxLit()), mk("-", false, t, r.modLit()),
 		tIte(mk("<", true, t, r.minLit()), mk("+", false, t, r.modLit()), t))
 }
@@ -229,8 +353,11 @@ func wrapOnce(t *Term, r intRange) *Term {
 // wrapConv normalises an arbitrary in-64-bit-range Int term into the range r
 // (used by conversions): ((t - min) mod 2^bits) + min.
 func wrapConv(t *Term, r intRange) *Term {
+	if t.within(r) {
+		return t
+	}
 	min := r.minLit()
-	return mk("+", false, mk("mod", false, mk("-", false, t, min), r.modLit()), min)
+	return mk("+", false, mk("mod", false, mk("-", false, t, min), r.modLit()), min).setRange(r)
 }
 
 func inRange(t *Term, r intRange) *Term {
